@@ -673,11 +673,17 @@ def e2e_env():
     from tools import vlib
     tc = E2E_ENV_TOOLCHAIN
     home = os.path.expanduser("~/.rustup/toolchains/" + tc)
-    env = dict(vlib.cargo_env("hydro-e2e"))
+    # checking an alternative checkout (HV_REPO, seeded-change runs): the harness was built from the
+    # private copy into the -alt target dir; the generated crate must go there too, never into the
+    # cache of the real tree (stageleft names staged macros after the checkout path)
+    alt = vlib.REPO != "/repo"
+    env = dict(vlib.cargo_env("hydro-e2e" + ("-alt" if alt else "")))
+    mdir = (os.path.join(vlib.WORK, "harness_alt_%d" % os.getpid(), "h_sim", "e2e") if alt
+            else os.path.join(vlib.ROOT, "harness", "h_sim", "e2e"))
     env.update({
         "RUSTUP_TOOLCHAIN": tc,
         "LD_LIBRARY_PATH": "%s/lib/rustlib/x86_64-unknown-linux-gnu/lib:%s/lib" % (home, home),
-        "CARGO_MANIFEST_DIR": os.path.join(vlib.ROOT, "harness", "h_sim", "e2e"),
+        "CARGO_MANIFEST_DIR": mdir,
         "HV_CASE_TIMEOUT_MS": "3000000",
     })
     return env
